@@ -2580,7 +2580,7 @@ theorem calculate_some {fuel : Nat} {hundred eps : α} {u : Upload α} {rows : L
       alignDims names lt0 pt0 = some (lt1, pt1) ∧ extractDistrust lt1 = .ok (c, d) ∧
       canonicalizeLocalTrust c (some (canonicalizeTrustVector pt1)) = .ok c' ∧
       canonicalizeLocalTrust d none = .ok d' ∧
-      compute fuel c' (canonicalizeTrustVector pt1) (div (ofNat hp.toNat) hundred) eps {} = .ok res ∧
+      compute fuel c' (canonicalizeTrustVector pt1) (div (ofNat hp.toNat) hundred) eps (pgOpts (div (ofNat hp.toNat) hundred) eps) = .ok res ∧
       rows = sortByScoreDesc (rowsOf names pt1 (discountTrustVector res.t d')) := by
   unfold calculate at h
   split at h
